@@ -313,6 +313,7 @@ class PythonToIrCompiler:
         entry_block = self.builder.block
         test_block = self.builder.new_block()
         body_block = self.builder.new_block()
+        increment_block = self.builder.new_block()
         final_block = self.builder.new_block()
 
         self.emit(ir.Jump(test_block))
@@ -327,15 +328,17 @@ class PythonToIrCompiler:
         self.local_map[statement.target.id] = Var(i_phi, False, ir.i64)
 
         # Body:
-        self.enter_loop(test_block, final_block)
+        self.enter_loop(increment_block, final_block)
         self.builder.set_block(body_block)
         self.gen_statement(statement.body)
+        self.builder.emit_jump(increment_block)
         self.leave_loop()
 
-        # Increment loop variable:
+        # Increment loop variable, continue jumps to here:
+        self.builder.set_block(increment_block)
         one = self.builder.emit_const(1, ir.i64)
         i_inc = self.builder.emit_add(i_phi, one, ir.i64)
-        i_phi.set_incoming(self.builder.block, i_inc)
+        i_phi.set_incoming(increment_block, i_inc)
 
         # Jump to start again:
         self.builder.emit_jump(test_block)
